@@ -313,7 +313,7 @@ func judge(c *vkit.Ctx, w *workload, h *recorder, path string, in map[string]any
 }
 
 func checkC06(c *vkit.Ctx) {
-	c.P.Rule = "case = (workload, schedule): 2-5 task goroutines, each one test execution (some re-executed) with 1-3 Match* calls of kind create/match/mismatch/update (MatchSnapshot/JSON/YAML) on one shared pre-populated file, some with snaps.Skip and standalone calls, one Config shared by all tasks; token mode: the real code built from an AST-instrumented overlay of the current sources yields at every file-system/lock operation and a controller grants one task at a time under a seeded strategy (PCT-style priorities with <=3 change points, uniform random, and the complete two-cut family Y^j X^k Y* X* over task pairs); every grant list is recorded and replayable; oracle: porcupine linearizability check of the recorded call/return history plus one final-read per slot against a sequential slot-store model (partitioned by slot), independent reader on the final file (torn/unexpected/duplicate entries), deadlock detection; free mode (every run, built with -race): the same workloads run unscheduled with seeded random delays at the same points, race reports are counted; non-trivial = schedule with >=1 context switch between another task's file read and its file write (window hit) ; distinct by hash(workload, grant list)"
+	c.P.Rule = "case = (workload, schedule): 2-5 task goroutines, each one test execution (some re-executed) with 1-3 Match* calls of kind create/match/mismatch/update (MatchSnapshot/JSON/YAML) on one shared pre-populated file (half of the JSON documents handed over as Go values, values of a slot mostly of equal length so that rewrites keep the file size), some with snaps.Skip and standalone calls, one Config shared by all tasks; token mode: the real code built from an AST-instrumented overlay of the current sources yields at every file-system/lock operation and a controller grants one task at a time under a seeded strategy (PCT-style priorities with <=3 change points, uniform random, the two-cut family Y^j X^k Y* X* over task pairs, and site-cuts `Y until parked at its n-th <operation>, X until parked at its m-th <operation>, Y*, X*` over 13 operation classes); every grant list is recorded and replayable; oracle: porcupine linearizability check of the recorded call/return history plus one final-read per slot against a sequential slot-store model (partitioned by slot), independent reader on the final file (torn/unexpected/duplicate entries), deadlock detection; free mode (every run, built with -race): the same workloads run unscheduled with seeded random delays at the same points, race reports are counted; non-trivial = schedule with >=1 context switch between another task's file read and its file write (window hit) ; distinct by hash(workload, grant list)"
 	c.P.Assumptions = []string{"the instrumenter only adds yield points (syntactic); sites reached are reported", "in token mode the hand-off channels order every step, so data races are looked for only in free mode"}
 	if os.Getenv("VERIF_RACE_BUILD") == "1" {
 		freeMode(c)
